@@ -3,6 +3,9 @@
 #include "private/implementations.h"
 #include "randombytes.h"
 #include "runtime.h"
+#ifdef SODIUM_VERIF
+# include "private/verif.h"
+#endif
 #include "stream_salsa20.h"
 
 #ifdef HAVE_AMD64_ASM
@@ -16,9 +19,6 @@
 #if defined(HAVE_AVX2INTRIN_H) && defined(HAVE_EMMINTRIN_H) && \
     defined(HAVE_TMMINTRIN_H) && defined(HAVE_SMMINTRIN_H)
 # include "xmm6int/salsa20_xmm6int-avx2.h"
-#ifdef SODIUM_VERIF
-# include "private/verif.h"
-#endif
 #endif
 
 #if HAVE_AMD64_ASM
